@@ -55,6 +55,7 @@ namespace hv
     using S_TSS = TSS<Int>;
     using S_TSD = TSD<Int, TS<Int>>;
     using S_TSL = TSL<TS<Int>, 3>;
+    using S_DL  = TSL<TS<Int>>;           // dynamic list (no fixed size): a separate storage / delta implementation
     using S_TSB = VB;
     using S_TSW = TSW<Int, 3, 2>;
     using S_DSS = TSD<Int, TSS<Int>>;
@@ -218,6 +219,26 @@ namespace hv
                     o += std::to_string(k);
                 }
                 o += "]";
+                // the indices the list's own per-tick delta lists (its canonical delta is a map index -> child delta)
+                o += ",\"dk\":";
+                try
+                {
+                    ValueView dv = in.delta_value();
+                    std::string ks = "[";
+                    if (dv.has_value())
+                    {
+                        bool f2 = true;
+                        for (const auto &[key, cd] : dv.as_map())
+                        {
+                            static_cast<void>(cd);
+                            if (!f2) ks += ',';
+                            f2 = false;
+                            ks += std::to_string((long long)key.template checked_as<std::int64_t>());
+                        }
+                    }
+                    o += ks + "]";
+                }
+                catch (const std::exception &) { o += "null"; }
                 break;
             }
             case TSTypeKind::TSB:
